@@ -753,3 +753,216 @@ def gen_package(rng, malformed=False):
     g.members = members
     g.parts, g.root_rels, g.names = parts, root_rels, names
     return g
+
+
+# ----------------------------------------------------------------------------- irregularities (C16)
+import re as _re
+
+NS_P = "http://schemas.openxmlformats.org/presentationml/2006/main"
+NS_R = "http://schemas.openxmlformats.org/officeDocument/2006/relationships"
+CT_CORE = "application/vnd.openxmlformats-package.core-properties+xml"
+RT_CORE = "http://schemas.openxmlformats.org/package/2006/relationships/metadata/core-properties"
+_SLIDE_RE = _re.compile(r"^ppt/slides/slide(\d+)\.xml$")
+
+
+def source_of_rels(name):
+    """Part name (with leading slash) whose rels item has member name `name`, or None."""
+    d, f = posixpath.split(name)
+    if posixpath.basename(d) != "_rels" or not f.endswith(".rels"):
+        return None
+    parent = posixpath.dirname(d)
+    stem = f[: -len(".rels")]
+    if not stem:
+        return "/" if parent == "" else None
+    return "/" + (parent + "/" if parent else "") + stem
+
+
+def base_dir(partname):
+    return "/" if partname == "/" else (posixpath.split(partname)[0] or "/")
+
+
+def main_part_name(members):
+    lg = logical(members)
+    if lg is None:
+        return None
+    od = [r for r in lg[0] if r[1] == RT_OD and not r[2]]
+    return od[0][3] if len(od) == 1 else None
+
+
+def slide_rids(members):
+    """r:id values of p:sldIdLst/p:sldId of the main part, in document order ([] when unreadable)."""
+    main = main_part_name(members)
+    if main is None:
+        return []
+    data = as_dict(members).get(main[1:])
+    try:
+        root = etree.fromstring(data, _parser)
+    except Exception:  # noqa
+        return []
+    out = []
+    for lst in root.findall("{%s}sldIdLst" % NS_P):
+        for s in lst.findall("{%s}sldId" % NS_P):
+            rid = s.get("{%s}id" % NS_R)
+            if rid is not None:
+                out.append(rid)
+    return out
+
+
+def list_faults(members):
+    """Every single irregularity of the property's list applicable to this member list."""
+    d = as_dict(members)
+    out = []
+    for name, data in members:
+        if source_of_rels(name) is not None:
+            rl = decode_rels(data)
+            if rl is None:
+                continue
+            out.append(("del-rels", name))
+            for i, r in enumerate(rl):
+                if r[3] != "External":
+                    out.append(("dangling", name, i))
+    ct = decode_ct(d.get(CT_NAME, b""))
+    main = main_part_name(members)
+    if ct is not None:
+        for i in range(len(ct[0])):
+            out.append(("case-default", i))
+        for i, (pn, _t) in enumerate(ct[1]):
+            out.append(("case-override", i))
+            if main is None or pn.lower() != main.lower():
+                out.append(("unknown-ct", i))
+    for v in range(3):
+        out.append(("extra", v))
+    if sum(1 for n, _ in members if _SLIDE_RE.match(n)) >= 1:
+        out.append(("rename-slides", "gaps"))
+        out.append(("rename-slides", "reverse"))
+    if any(r[1] == RT_CORE for r in (decode_rels(d.get("_rels/.rels", b"")) or [])):
+        out.append(("no-core",))
+    if main is not None:
+        for t in ("application/vnd.openxmlformats-officedocument.presentationml.slide+xml",
+                  "application/vnd.openxmlformats-officedocument.presentationml.template.main+xml",
+                  "application/x-verif-unknown"):
+            out.append(("wrong-main", t))
+        out.append(("del-member", main[1:]))
+    out.append(("del-member", CT_NAME))
+    out.append(("del-member", "_rels/.rels"))
+    return out
+
+
+def _replace(members, name, data):
+    return [(n, data if n == name else b) for n, b in members]
+
+
+def _retarget(members, mapping):
+    """Rename parts (mapping old partname -> new partname): members, their rels items, the
+    Override entries and every relationship target that resolves to a renamed part."""
+    tmp = {}
+    for old, new in mapping.items():
+        tmp[old[1:]] = new[1:]
+        tmp[rels_name(old)] = rels_name(new)
+    out = []
+    for name, data in members:
+        src = source_of_rels(name)
+        if src is not None:
+            rl = decode_rels(data)
+            if rl is not None:
+                new_src = mapping.get(src, src)
+                nl = []
+                for rid, rtype, target, mode in rl:
+                    if mode != "External":
+                        t = resolve_ref(base_dir(src), target)
+                        t2 = mapping.get(t, t)
+                        if t2 != t or new_src != src:
+                            target = t2 if target.startswith("/") else posixpath.relpath(t2, base_dir(new_src))
+                    nl.append((rid, rtype, target, mode))
+                data = rels_xml(nl)
+        elif name == CT_NAME:
+            ct = decode_ct(data)
+            if ct is not None:
+                low = {k.lower(): v for k, v in mapping.items()}
+                data = ct_xml(ct[0], [(low.get(pn.lower(), pn), t) for pn, t in ct[1]])
+        out.append((tmp.get(name, name), data))
+    return out
+
+
+def apply_fault(members, fault):
+    kind = fault[0]
+    d = as_dict(members)
+    if kind == "dangling":
+        _k, name, i = fault
+        rl = decode_rels(d[name])
+        rid, rtype, target, mode = rl[i]
+        rl[i] = (rid, rtype, posixpath.join(posixpath.dirname(target), "NULL"), mode)
+        return _replace(members, name, rels_xml(rl))
+    if kind == "del-rels" or kind == "del-member":
+        return [(n, b) for n, b in members if n != fault[1]]
+    if kind in ("case-default", "case-override", "unknown-ct", "wrong-main"):
+        ds, os_ = decode_ct(d[CT_NAME])
+        ds, os_ = list(ds), list(os_)
+        if kind == "case-default":
+            e, t = ds[fault[1]]
+            ds[fault[1]] = (ascii_swap(e) if ascii_swap(e) != e else e, t)
+            if ds[fault[1]][0] == e:
+                ds[fault[1]] = (e.upper() if e.isascii() else e, t)
+        elif kind == "case-override":
+            pn, t = os_[fault[1]]
+            os_[fault[1]] = (ascii_swap(pn), t)
+        elif kind == "unknown-ct":
+            pn, t = os_[fault[1]]
+            os_[fault[1]] = (pn, "application/x-verif-unknown")
+        else:
+            main = main_part_name(members)
+            os_ = [(pn, fault[1] if pn.lower() == main.lower() else t) for pn, t in os_]
+            if not any(pn.lower() == main.lower() for pn, _ in os_):
+                os_.append((main, fault[1]))
+        return _replace(members, CT_NAME, ct_xml(ds, os_))
+    if kind == "extra":
+        extras = [[("docProps/extra.bin", b"\x00\x01extra")],
+                  [("ppt/slides/slide999.xml", b"<p:sld xmlns:p=\"%s\"/>" % NS_P.encode()),
+                   ("ppt/slides/_rels/slide999.xml.rels", rels_xml([("rId1", RT_BASE + "slideLayout", "../slideLayouts/slideLayout1.xml", "Internal")]))],
+                  [("junk/readme.txt", b"unreferenced"), ("ppt/_rels/ghost.xml.rels", rels_xml([("rId1", RT_BASE + "slide", "slides/slide1.xml", "Internal")]))]]
+        have = {n for n, _ in members}
+        return members + [(n, b) for n, b in extras[fault[1]] if n not in have]
+    if kind == "rename-slides":
+        slides = sorted((int(_SLIDE_RE.match(n).group(1)), n) for n, _ in members if _SLIDE_RE.match(n))
+        nums = [k for k, _ in slides]
+        if fault[1] == "gaps":
+            new = [3 * k + 2 for k in nums]
+        else:
+            new = list(reversed(nums)) if len(nums) > 1 else [nums[0] + 7]
+        mapping = {"/" + n: "/ppt/slides/slide%d.xml" % k for (_o, n), k in zip(slides, new)}
+        return _retarget(members, mapping)
+    if kind == "no-core":
+        rl = decode_rels(d["_rels/.rels"])
+        gone = {resolve_ref("/", r[2]) for r in rl if r[1] == RT_CORE and r[3] != "External"}
+        out = _replace(members, "_rels/.rels", rels_xml([r for r in rl if r[1] != RT_CORE]))
+        ds, os_ = decode_ct(d[CT_NAME])
+        out = _replace(out, CT_NAME, ct_xml(ds, [(pn, t) for pn, t in os_ if pn.lower() not in {g.lower() for g in gone}]))
+        return [(n, b) for n, b in out if "/" + n not in gone]
+    raise ValueError("unknown fault %r" % (fault,))
+
+
+REFUSALS = ("notfound", "badzip", "err:Key", "err:Value")
+
+
+def expected_open(members, zip_fault, form, pres_cts):
+    """What the property says Presentation() must do with this input, by an independent
+    reading of the package: 'notfound' | 'badzip' | 'err:Key' | 'err:Value' | ('ok', logical graph)."""
+    if form == "nopath":
+        return "notfound"
+    if zip_fault is not None:
+        return "notfound" if form == "path" else "badzip"
+    d = as_dict(members)
+    if CT_NAME not in d:
+        return "err:Key"
+    lg = logical(members)
+    od = [r for r in lg[0] if r[1] == RT_OD]
+    if len(od) == 0:
+        return "err:Key"
+    if len(od) > 1 or od[0][2]:
+        return "err:Value"
+    main = od[0][3]
+    if any(v[0] is None for v in lg[1].values()):
+        return "err:Key"
+    if lg[1][main][0] not in pres_cts:
+        return "err:Value"
+    return ("ok", lg)
